@@ -819,7 +819,7 @@ func (a *Act) frameForCall(st *State, fc *FuncContract, vars map[string]specVal,
 		case mode == "listed" && !listed[cn]:
 			st.heap[cn] = tr.heapFrame(prev, func(key []Term) Term { return app("<=", key[0], now) }, "call_"+cn)
 		default:
-			st.heap[cn] = tr.newHeapBase(c, "call_"+cn)
+			tr.havocCells(st, c, "call")
 		}
 	}
 	na := tr.freshConst("alloc_call", "Int")
